@@ -303,7 +303,13 @@ def parse(pattern, flags):
         tree = sre_parse.parse(text, 0)
     except Exception as e:
         raise Unsupported('re._parser: %s' % e)
+    LAST_GROUPS.clear()
+    LAST_GROUPS.update(dict(tree.state.groupdict))
     return conv_seq(list(tree), bool(flags & regex.I), bool(flags & regex.S))
+
+
+LAST_GROUPS = {}     # named groups (name -> number) of the pattern parsed last
+GROUPS = {}          # lean name -> {group name: number}, filled by translated()
 
 
 # ------------------------------------------------------------------ python AST -> Lean text
@@ -381,10 +387,12 @@ def translated():
             continue
         try:
             ok.append((name, parse(pat, flags), pat, flags, origin))
+            GROUPS[name] = dict(LAST_GROUPS)
         except Unsupported as e:
             bad.append((name, pat, str(e)))
     for name, pat, flags in SELFTEST:
         ok.append((name, parse(pat, flags), pat, flags, 'translator self-test pattern'))
+        GROUPS[name] = dict(LAST_GROUPS)
     return ok, raw, bad
 
 
@@ -413,6 +421,8 @@ def generate():
     for name, ast, pat, flags, origin in ok:
         d = '/-- %s\n    pattern: %s -/\n' % (origin, pat.replace('-/', '- /').replace('/-', '/ -'))
         d += 'def %s : RE :=\n%s\n\n' % (name, wrap(lean_re(ast)))
+        for gname, gnum in sorted(GROUPS.get(name, {}).items()):
+            d += '/-- number of the named group `%s` of `%s` -/\ndef %s_g_%s : Nat := %d\n\n' % (gname, name, name, gname, gnum)
         if name.startswith('bool'):
             cho += d
         else:
